@@ -98,7 +98,7 @@ func installerFaultBody(r *explore.Run, rep *report.R, sc string, cases []instCa
 
 	s := build()
 	// Direct, uncached client: no spurious 404 reads (see faultBody).
-	inj := &xrh.FaultInjector{Run: r, Reads: true}
+	inj := (&xrh.FaultInjector{Run: r, Reads: true}).WithErrClasses(s)
 	s.Inj = inj
 	inj.Armed = true
 	res1 := runInstaller(s)
